@@ -14,7 +14,7 @@ pub fn load_facts(cx: &mut Ctx, rule: &str) -> Option<Facts> {
             return None;
         }
     };
-    match crate::mir::load(std::path::Path::new(&dir)) {
+    match crate::mir::load(std::path::Path::new(&dir)).map(|f| undo_renames_in_facts(cx, f)) {
         Ok(f) => {
             cx.trust("rustc nightly front end + tools/mirfacts driver (resolved callees, assert terminators)");
             let n: usize = f.crates.values().map(|c| c.funcs.len()).sum();
@@ -30,6 +30,52 @@ pub fn load_facts(cx: &mut Ctx, rule: &str) -> Option<Facts> {
     }
 }
 
+/// Private functions that were merely renamed get their reference names back in the MIR facts as well
+/// (see srcmodel::undo_private_renames).
+fn undo_renames_in_facts(cx: &Ctx, mut f: Facts) -> Facts {
+    // make sure the rename maps of the hand-written sources exist
+    for rel in ["parser/src/lexer.rs", "parser/src/string.rs", "parser/src/function.rs", "parser/src/soft_keywords.rs", "parser/src/parser.rs", "parser/src/context.rs", "format/src/format.rs", "format/src/cformat.rs"] {
+        let _ = sm::load(&cx.repo, rel);
+    }
+    let maps: Vec<(String, BTreeMap<String, String>)> = sm::FN_RENAMES.with(|r| r.borrow().iter().map(|(k, v)| (k.clone(), v.clone())).collect());
+    if maps.is_empty() {
+        return f;
+    }
+    let fix = |name: &str, file: &str| -> String {
+        let mut out = name.to_string();
+        for (rel, m) in &maps {
+            if !file.ends_with(rel.as_str()) {
+                continue;
+            }
+            for (new, old) in m {
+                out = out.replace(&format!("::{}::", new), &format!("::{}::", old));
+                if out.ends_with(&format!("::{}", new)) {
+                    let cut = out.len() - new.len();
+                    out = format!("{}{}", &out[..cut], old);
+                }
+            }
+        }
+        out
+    };
+    for cf in f.crates.values_mut() {
+        for x in cf.funcs.iter_mut() {
+            x.name = fix(&x.name, &x.file);
+        }
+        for c in cf.calls.iter_mut() {
+            c.caller = fix(&c.caller, &c.file);
+            c.callee = fix(&c.callee, &c.file);
+        }
+        for a in cf.asserts.iter_mut() {
+            a.func = fix(&a.func, &a.file);
+        }
+        for v in cf.valuses.iter_mut() {
+            v.func = fix(&v.func, &v.file);
+            v.producer = fix(&v.producer, &v.file);
+        }
+    }
+    f
+}
+
 /// Thorough tier: the fact directories of the non-default feature configurations, as (label, facts).
 /// `MIRFACTS_DIRS_EXTRA` = `label=dir;label=dir` is set by bin/check for the thorough tier.
 pub fn extra_facts(cx: &mut Ctx, rule: &str) -> Vec<(String, Facts)> {
@@ -43,7 +89,7 @@ pub fn extra_facts(cx: &mut Ctx, rule: &str) -> Vec<(String, Facts)> {
     };
     for part in spec.split(';').filter(|p| !p.is_empty()) {
         let Some((label, dir)) = part.split_once('=') else { continue };
-        match crate::mir::load(std::path::Path::new(dir)) {
+        match crate::mir::load(std::path::Path::new(dir)).map(|f| undo_renames_in_facts(cx, f)) {
             Ok(f) => {
                 cx.unit(&format!("MIR functions [{}]", label), f.crates.values().map(|c| c.funcs.len()).sum());
                 out.push((label.to_string(), f));
